@@ -100,23 +100,29 @@ theorem for1_eq (lessF : Nat → Nat) (occF : Nat → Nat → Nat) (iv : Bi) (a 
       have hc : (iv.lower == 0) = true := by simp [h0]
       have hc' : (0 == iv.lower) = true := by simp [h0]
       have hm0 : (if iv.lower = 0 then 0 else occF (iv.lower - 1) b) = 0 := if_pos h0
+      have hg : ¬ (0 < iv.lower) := by omega
       simp only [sOf, hm0, Nat.sub_zero] at hstep
       by_cases hb : b = a
       · subst hb
-        simp [SrcFmdExt.backward_ext_for1, extLoop, e1, e1', e3, e3', e4, e5, hc, hc', hm0]
-      · simp [SrcFmdExt.backward_ext_for1, extLoop, e1, e1', e3, e3', e4, e5, hc, hc', hm0, hb, hstep]
+        simp [SrcFmdExt.backward_ext_for1, extLoop, e1, e1', e3, e3', e4, e5, hc, hc', hm0, hg]
+      · have hb' : ¬ a = b := fun h => hb h.symm
+        have hbq : (a == b) = false := by simp [hb']
+        simp [SrcFmdExt.backward_ext_for1, extLoop, e1, e1', e3, e3', e4, e5, hc, hc', hm0, hg, hb, hb', hbq, hstep]
     · have e2 : Rs.sub iv.lower 1 = Res.ok (iv.lower - 1) := Rs.sub_ok (by omega)
       have hc : (iv.lower == 0) = false := by simp [h0]
       have hc' : (0 == iv.lower) = false := by simp; omega
       have hm0 : (if iv.lower = 0 then 0 else occF (iv.lower - 1) b) = occF (iv.lower - 1) b := if_neg h0
+      have hg : 0 < iv.lower := by omega
       rw [hm0] at hmb
       have e5 : Rs.sub (occF (iv.lower + iv.size - 1) b) (occF (iv.lower - 1) b) =
           Res.ok (occF (iv.lower + iv.size - 1) b - occF (iv.lower - 1) b) := Rs.sub_ok hmb
       simp only [sOf, hm0] at hstep
       by_cases hb : b = a
       · subst hb
-        simp [SrcFmdExt.backward_ext_for1, extLoop, e1, e1', e2, e3, e3', e4, e5, hc, hc', hm0]
-      · simp [SrcFmdExt.backward_ext_for1, extLoop, e1, e1', e2, e3, e3', e4, e5, hc, hc', hm0, hb, hstep]
+        simp [SrcFmdExt.backward_ext_for1, extLoop, e1, e1', e2, e3, e3', e4, e5, hc, hc', hm0, hg]
+      · have hb' : ¬ a = b := fun h => hb h.symm
+        have hbq : (a == b) = false := by simp [hb']
+        simp [SrcFmdExt.backward_ext_for1, extLoop, e1, e1', e2, e3, e3', e4, e5, hc, hc', hm0, hg, hb, hb', hbq, hstep]
 
 /-- the component of `extLoop`'s result that is added to `less(a)` is at most the `occ` value it was read from -/
 theorem extLoop_o_le (occF : Nat → Nat → Nat) (iv : Bi) (a : Nat) (N : Nat)
